@@ -29,6 +29,7 @@ EXPLANATION = (
     "objective install is dominated by a reset of all costs and followed by the offset; (R5) queued bound updates write exactly the "
     "requested bounds per backend (fix: lower = upper = value; lower-bound queue keeps the current upper bound, read from position "
     "`upper` of Highs.getCols per the external contract) and the queues are cleared on every exit; (R6) values are read back by the "
+    "(R5, extended) Highs.getCols is called with a sorted index set and its returned count is checked; the queued updates are applied before the solver run on every path of optimize(); a memo of solution values is invalidated after every run.  "
     "variable's own column index, one entry per requested key.  NOT decided: HiGHS' handling of the rows, numerical tolerance."
 )
 DECIDED = ["exactness of the binary*continuous product helper (soundness + completeness, algebraic proof)",
